@@ -8,7 +8,7 @@ change is not behaviour-preserving after all, or the machinery raised a false
 alarm / cannot follow the refactoring."""
 import json, os, subprocess, sys, shutil, time, tempfile
 ENV = dict(os.environ, GOFLAGS="-mod=mod", GOPROXY="off", GOSUMDB="off", GOTOOLCHAIN="local")
-V = "/verif"
+V = os.environ.get("VSYM_HOME") or os.path.dirname(os.path.dirname(os.path.abspath(__file__)))
 
 
 def sh(cmd, cwd=None, timeout=3600, env=None):
